@@ -1,5 +1,5 @@
 (* StoreFile (model of FileArray) refines the reference MaskedNd: one step. *)
-From Verif Require Import Base.Prelude Base.Index Base.PySlice Model.Store
+From Verif Require Import Base.Prelude Base.Index Base.PySlice Model.Store Model.StoreSpec
   Proofs.IndexFacts Proofs.PySliceFacts Proofs.StoreBase Proofs.StoreAbs.
 
 Section FileFacts.
@@ -13,12 +13,6 @@ Section FileFacts.
   Local Notation full := (full_shape g).
   Local Notation stF := (stF E).
   Local Notation sval := (sval E).
-
-  (* abstraction: the file of external position e is number ravel ext e *)
-  Definition lookF (s : stF) : list nat -> option sval := fun e => lookupF E (key_to_file g e) s.
-  Definition absF (s : stF) : list (cell E) := abs_of E g (lookF s).
-  (* representation invariant: every file holds a value of the internal shape *)
-  Definition invF (s : stF) : Prop := forall i v, In (i, v) s -> length v = prod int.
 
   Lemma lookupF_in i (s : stF) v : lookupF E i s = Some v -> In (i, v) s.
   Proof.
@@ -34,17 +28,17 @@ Section FileFacts.
     rewrite (Nat.eqb_sym i k). destruct (k =? i); [reflexivity|]. exact IH.
   Qed.
 
-  Lemma good_lookF s : invF s -> good E g (lookF s).
+  Lemma good_lookF s : invF E g s -> good E g (lookF E g s).
   Proof. intros Hinv e v _ H. apply lookupF_in in H. eapply Hinv; eauto. Qed.
 
-  Lemma invF_nil : invF [].
+  Lemma invF_nil : invF E g [].
   Proof. intros i v []. Qed.
 
-  Lemma absF_nil : absF [] = absent E g.
+  Lemma absF_nil : absF E g [] = absent E g.
   Proof. unfold absF, lookF. cbn. apply abs_empty. Qed.
 
   (* ---------- __getitem__ ---------- *)
-  Lemma getF_refines s key : invF s -> getF E g s key = getL E g (lookF s) key.
+  Lemma getF_refines s key : invF E g s -> getF E g s key = getL E g (lookF E g s) key.
   Proof.
     intros Hinv. pose proof (good_lookF s Hinv) as Hgood.
     unfold getF, getL. rewrite (normalize_key_get g Hg).
@@ -54,10 +48,10 @@ Section FileFacts.
     - unfold slice_indicesF. rewrite (normalize_key_get g Hg), En. cbn [bind].
       change (merge mask ext int) with full.
       destruct (axes_of full nk) as [axes|e] eqn:Ea; cbn [bind]; [|reflexivity].
-      rewrite (mapM_ok _ (cell_at E g (lookF s))).
+      rewrite (mapM_ok _ (cell_at E g (lookF E g s))).
       + cbn [bind]. unfold reshape.
         rewrite (slice_lens_prod _ _ _ Ea), map_length, Nat.eqb_refl. reflexivity.
-      + intros p Hp. apply (fetch_ok E g Hg (lookF s)); [assumption|].
+      + intros p Hp. apply (fetch_ok E g Hg (lookF E g s)); [assumption|].
         eapply axes_in_bounds; eauto.
     - destruct (no_slice_axes_ok full nk Hs) as [axes Ea]. rewrite Ea. cbn [bind].
       pose proof (norm_items_length _ _ _ Hn L) as Lnk.
@@ -65,7 +59,7 @@ Section FileFacts.
       assert (in_bounds full (nk_ints nk) = true) as Hb.
       { eapply axes_in_bounds; eauto. rewrite Eax, cart_singletons. now left. }
       rewrite Eax, cart_singletons. cbn [map].
-      pose proof (fetch_ok E g Hg (lookF s) _ Hgood Hb) as Hf. unfold lookF at 1 in Hf.
+      pose proof (fetch_ok E g Hg (lookF E g s) _ Hgood Hb) as Hf. unfold lookF at 1 in Hf.
       rewrite Hf. reflexivity.
   Qed.
 
@@ -99,10 +93,10 @@ Section FileFacts.
   Qed.
 
   Lemma dumpF_spec s key v :
-    match dumpF E g s key v, dumpL E g (lookF s) key v with
+    match dumpF E g s key v, dumpL E g (lookF E g s) key v with
     | Ok s', Ok look' =>
-        (forall e, in_bounds ext e = true -> lookF s' e = look' e)
-        /\ (invF s -> length v = prod int -> invF s')
+        (forall e, in_bounds ext e = true -> lookF E g s' e = look' e)
+        /\ (invF E g s -> length v = prod int -> invF E g s')
     | Err e1, Err e2 => e1 = e2
     | _, _ => False
     end.
@@ -133,7 +127,7 @@ Section FileFacts.
   Qed.
 
   (* ---------- mask_linear ---------- *)
-  Lemma mask_linearF_refines s : invF s -> mask_linearF E g s = mask_linearM E g (absF s).
+  Lemma mask_linearF_refines s : invF E g s -> mask_linearF E g s = mask_linearM E g (absF E g s).
   Proof.
     intros Hinv. unfold absF. rewrite (mask_linearM_abs E g Hg) by (now apply good_lookF).
     unfold mask_linearF, size. rewrite <- unravel_enumerates, map_map.
@@ -142,7 +136,7 @@ Section FileFacts.
   Qed.
 
   (* ---------- to_array ---------- *)
-  Lemma to_arrayF_refines s : invF s -> to_arrayF E g s = Ok (OArr full (absF s)).
+  Lemma to_arrayF_refines s : invF E g s -> to_arrayF E g s = Ok (OArr full (absF E g s)).
   Proof.
     intros Hinv. pose proof (good_lookF s Hinv) as Hgood.
     unfold to_arrayF. destruct (g_int g) as [|d0 int'] eqn:Eint.
@@ -167,14 +161,14 @@ Section FileFacts.
         destruct (lookupF E (ravel ext p) s); reflexivity.
     - (* internal shape: the double loop *)
       try rewrite <- Eint.
-      destruct (splat_assignments_spec E g Hg (lookF s)
+      destruct (splat_assignments_spec E g Hg (lookF E g s)
                   (map (fun e => (e, lookupF E (key_to_file g e) s)) (all_indices ext)) Hgood)
         as [pcs [Hpcs [Hvals Hmem]]].
       { intros e ov Hin. apply in_map_iff in Hin as [e' [Heq Hin]]. injection Heq as <- <-.
         apply in_all_indices in Hin. auto. }
       rewrite Hpcs. cbn [bind]. f_equal. f_equal. apply (to_array_abs E g).
       + now rewrite assign_all_length, repeat_length.
-      + intros p Hp. rewrite (assign_all_spec E full (cell_at E g (lookF s))); auto.
+      + intros p Hp. rewrite (assign_all_spec E full (cell_at E g (lookF E g s))); auto.
         * rewrite Hmem by assumption. rewrite map_map. cbn [fst]. rewrite map_id.
           assert (mem_idx (ext_of mask p) (all_indices ext) = true) as ->; [|reflexivity].
           apply mem_idx_in, in_all_indices. now apply (full_split g Hg).
@@ -182,9 +176,9 @@ Section FileFacts.
   Qed.
 
   (* ---------- one step ---------- *)
-  Theorem stepF_refines s o : invF s -> valid_op E g o = true ->
-    stepM E FileNotFoundError g (absF s) o = (absF (fst (stepF E g s o)), snd (stepF E g s o))
-    /\ invF (fst (stepF E g s o)).
+  Theorem stepF_refines s o : invF E g s -> valid_op E g o = true ->
+    stepM E FileNotFoundError g (absF E g s) o = (absF E g (fst (stepF E g s o)), snd (stepF E g s o))
+    /\ invF E g (fst (stepF E g s o)).
   Proof.
     intros Hinv Hv. pose proof (good_lookF s Hinv) as Hgood.
     destruct o as [key v|key| | | |i|i|]; cbn [stepF stepM valid_op] in *.
@@ -192,7 +186,7 @@ Section FileFacts.
       apply Nat.eqb_eq in Hv.
       unfold absF. rewrite (dumpM_abs E g). fold absF.
       pose proof (dumpF_spec s key v) as H.
-      destruct (dumpF E g s key v) as [s'|e1], (dumpL E g (lookF s) key v) as [look'|e2]; try contradiction.
+      destruct (dumpF E g s key v) as [s'|e1], (dumpL E g (lookF E g s) key v) as [look'|e2]; try contradiction.
       + destruct H as [Hl Hi]. cbn [fst snd]. split; [|now apply Hi].
         f_equal. unfold absF. symmetry. now apply (abs_ext E g Hg).
       + subst. cbn [fst snd]. auto.
